@@ -217,6 +217,8 @@ structure StmtOK (env : Env) (s : Stmt) (st st' : State) (new : List Posting) : 
   floor : ∀ a c B, a ≠ "world" → 0 ≤ B → st.bal.WF → EnvNonneg env → 0 ≤ st.saved a c →
     StmtBound env a c B s → ∀ v, st.bal.get a c = some v →
     ∃ v', st'.bal.get a c = some v' ∧ min (v + st.saved a c) (-B) ≤ v' + st'.saved a c
+  /-- a send never touches the `saved` ghost -/
+  savedSend : s.isSend = true → st'.saved = st.saved
   /-- per-send form: the tracked balance itself stays above its floor -/
   floorSend : s.isSend = true → ∀ a c B, a ≠ "world" → 0 ≤ B → st.bal.WF →
     StmtBound env a c B s → ∀ v, st.bal.get a c = some v →
@@ -235,6 +237,7 @@ theorem StmtOK.same (env : Env) (s : Stmt) (st : State) (tx : List (String × Va
     refine ⟨v, hg, ?_⟩
     show min (v + st.saved a c) (-B) ≤ v + st.saved a c
     omega
+  savedSend := fun _ => rfl
   floorSend := by intro _ a c B _ _ _ _ v hg; exact ⟨v, hg, by omega⟩
 
 /-- Glue of the source half (a funding `f` taken out of `st.bal`, giving `b1`) and
@@ -259,6 +262,7 @@ theorem StmtOK.ofSend {env : Env} {s : Stmt} {st st' : State} {b1 : Balances} {f
     obtain ⟨v2, g2, l2⟩ := hfin.mono hn a c v1 ha (hd.wf hwf) g1
     refine ⟨v2, g2, ?_⟩
     rw [hfin.saved]; simp; omega
+  savedSend := fun _ => hfin.saved
   floorSend := by
     intro _ a c B ha hB hwf hb v hg
     obtain ⟨v1, g1, l1⟩ := hfl a c B ha hB hwf hb v hg
@@ -298,7 +302,7 @@ theorem evalStmt_ok {env : Env} {s : Stmt} {st st' : State} (h : evalStmt cfg en
         · rename_i bal hb
           cases h
           refine ⟨[], ⟨by simp, rfl, fun hwf => Balances.WF_set hwf (hwf _ _ _ hb), ?_, ?_, ?_,
-            (by intro hs; simp [Stmt.isSend] at hs)⟩⟩
+            (by intro hs; simp [Stmt.isSend] at hs), (by intro hs; simp [Stmt.isSend] at hs)⟩⟩
           · intro a c v _ _ hg
             simp only [Balances.set_get, flowIn, flowOut]
             by_cases hx : a = a0 ∧ c = asset
@@ -332,7 +336,7 @@ theorem evalStmt_ok {env : Env} {s : Stmt} {st st' : State} (h : evalStmt cfg en
           · rename_i hpos
             cases h
             refine ⟨[], ⟨by simp, rfl, fun hwf => Balances.WF_set hwf (hwf _ _ _ hb), ?_, ?_, ?_,
-              (by intro hs; simp [Stmt.isSend] at hs)⟩⟩
+              (by intro hs; simp [Stmt.isSend] at hs), (by intro hs; simp [Stmt.isSend] at hs)⟩⟩
             · intro a c v _ _ hg
               simp only [Balances.set_get, flowIn, flowOut]
               by_cases hx : a = a0 ∧ c = asset
